@@ -131,6 +131,8 @@ PROPS["C15"] = {
 PROPS["C10"] = {
     "units": [
         rapid("admission-machine", "rtpconn", "TestVerif_C10_AdmissionMachine", 500, 4000),
+        rapid("racing-joins", "rtpconn", "TestVerif_C10_RacingJoins", 300, 2500, race=True, shards=8, race_scope=["/group/", "/unbounded/"]),
+        rapid("last-operator-leaves", "rtpconn", "TestVerif_C10_LastOperatorLeaves", 24, 120, shards=8, timeout={"quick": 600, "thorough": 1800}),
     ],
     "technique": "model-based stateful property testing (rapid) of admission + forced schedules with fake clients",
     "assumptions": [],
@@ -225,6 +227,19 @@ PROPS["C20"] = {
     "technique": "model-based property testing (rapid): recordings parsed back with an EBML reader and compared with the frames a model publisher sent",
     "assumptions": ["diskwriter is driven through the public conn interfaces with a fake publisher; the packet cache behind it is the real one",
                     "the wall-clock based time origin (no sender report) is only checked for monotonicity"],
+}
+
+PROPS["C13"] = {
+    "units": [
+        plain("shutdown-kicks", "rtpconn", "TestVerif_C13_ShutdownKicksEveryone", timeout={"quick": 120, "thorough": 120}),
+        rapid("action-queue", "unbounded", "TestVerif_C13_ActionQueue", 400, 3000, race=True, shards=8),
+        rapid("coordinated-schedules", "rtpconn", "TestVerif_C13_CoordinatedSchedules", 60, 400, shards=8, timeout={"quick": 900, "thorough": 3600}),
+        rapid("free-running", "rtpconn", "TestVerif_C13_FreeRunning", 150, 1000, race=True, shards=8, race_scope=["/group/", "/unbounded/"]),
+    ],
+    "technique": "property-based testing (rapid) of generated concurrent plans under the race detector + forced schedules with fake clients as pause points (structural deadlock witness)",
+    "assumptions": ["interleavings inside a function without callback are reached only by free-running repetition",
+                    "race reports on state the statement does not list (webClient.permissions, WhipClient.group, down-track lists in GetStats) are recorded as observations",
+                    "a timeout without a structural witness is inconclusive, never a violation"],
 }
 
 NOT_APPLICABLE = {}
